@@ -118,6 +118,9 @@ func runC07(c *Ctx) {
 		operand := Pick(r, c07Operands)
 		input := Pick(r, c07Inputs)
 		contactLang := Pick(r, []string{"eng", "fra", "fra", ""})
+		// the flow's own language, and the language of its translations: either may be the environment's default (eng)
+		baseLang := Pick(r, []string{"eng", "eng", "fra"})
+		trLang := map[string]string{"eng": "fra", "fra": "eng"}[baseLang]
 		mode := Pick(r, []string{"switch", "switch", "switch", "timeout", "random", "twice"})
 
 		// ---- definition -------------------------------------------------------------------
@@ -172,8 +175,8 @@ func runC07(c *Ctx) {
 			}
 		}
 		flowUUID := us.next()
-		def13 := map[string]any{"uuid": flowUUID, "name": "R", "spec_version": "13.6.0", "language": "eng", "type": "messaging", "revision": 1,
-			"expire_after_minutes": 60, "localization": map[string]any{"fra": loc},
+		def13 := map[string]any{"uuid": flowUUID, "name": "R", "spec_version": "13.6.0", "language": baseLang, "type": "messaging", "revision": 1,
+			"expire_after_minutes": 60, "localization": map[string]any{trLang: loc},
 			"nodes": []map[string]any{{"uuid": nodeUUID, "router": router, "exits": jexits}}}
 		aj, _ := json.Marshal(map[string]any{"flows": []any{def13}, "fields": []map[string]any{{"uuid": "d66a7823-eada-40e5-9a3a-57239d4690bf", "key": "gender", "name": "Gender", "type": "text"}}})
 		desc := map[string]any{"assets": json.RawMessage(aj), "input": input, "contact_language": contactLang, "mode": mode, "seed": i}
@@ -325,8 +328,15 @@ func runC07(c *Ctx) {
 			var outs, caseCats []string
 			for _, cc := range cs {
 				args := cc.args
-				if contactLang == "fra" && cc.fraArgs != nil && len(cc.fraArgs) > 0 && len(cc.fraArgs) == len(cc.args) {
-					args = cc.fraArgs
+				// the contact's language, then the environment's default, up to the flow's own language
+				for _, l := range []string{contactLang, "eng"} {
+					if l == baseLang {
+						break
+					}
+					if l == trLang && cc.fraArgs != nil && len(cc.fraArgs) > 0 && len(cc.fraArgs) == len(cc.args) {
+						args = cc.fraArgs
+						break
+					}
 				}
 				xargs := []types.XValue{opv}
 				for _, a := range args {
